@@ -60,6 +60,9 @@ var witnesses = []witness{
 	{"S2-any-consumes", "C02", "-switch: a nullable choice in front of the leading character must keep that character in the first set", g(alt(seq(altE(lit("-"), lit("+")), plus(rng('0', '9'))), plus(rng('a', 'z')), seq(lit("("), ref(0), lit(")")))), 0, "5"},
 	{"seed-optional-subset-prefix", "C13", "-switch: an optional element in front of the element the case labels come from must not cost that element its test", g(alt(seq(opt(rng('0', '2')), rng('0', '9')), plus(rng('a', 'z')), lit(" "))), 0, "1"},
 	{"seed-optional-subset-prefix", "C02", "-switch: an optional element in front of the element the case labels come from must not cost that element its test", g(alt(seq(opt(rng('0', '2')), rng('0', '9')), plus(rng('a', 'z')), lit(" "))), 0, "1"},
+	{"seed-class-with-repeated-member", "C02", "-switch: a class that names a member twice, at the head of a nested choice inside a case arm, must still test its character", g(alt(seq(alt(seq(gram.Class(false, gram.Item{Lo: 'a', Hi: 'c'}, gram.Item{Lo: 'b', Hi: 'b'}), lit("x")), seq(lit("d"), lit("y"))), lit("z")), seq(rng('0', '9'), lit("q")), seq(lit("e"), lit("q")), seq(lit("f"), lit("q")))), 0, "dxz"},
+	{"seed-surrogate-gap-range", "C02", "-switch: case labels of a range across the surrogate gap include U+E000", g(alt(seq(rng(0xD7FF, 0xE000), lit("x")), seq(lit("a"), opt(lit("x"))), lit("b"), rng(0x2000, 0xCFFF))), 0, "\ue000x"},
+	{"seed-not-rule-inlined", "C02", "-inline: !Rule needs its own save/restore when the rule is expanded in place", g(seq(not(ref(1)), lit("i"), lit("f"), lit("x"), not(dot())), seq(lit("i"), lit("f"), not(lit("x")))), 0, "ifx"},
 	{"k03-query-restore", "C01", "? must restore the position after a partial match", g(seq(opt(seq(lit("a"), lit("b"))), lit("a"), lit("c"))), 0, "ac"},
 	{"k02-peeknot-restore", "C01", "! must restore the position after its operand failed having consumed", g(seq(not(seq(lit("a"), lit("b"))), lit("a"), lit("c"))), 0, "ac"},
 	{"seed-bare-lookahead-alternative", "C01", "a bare lookahead as a non-final alternative fails after reading a character", g(seq(lit("a"), alt(not(dot()), lit("\n")))), 0, "a\n"},
